@@ -3,6 +3,8 @@ package main
 import (
 	"crypto/tls"
 	"fmt"
+
+	"github.com/hashicorp/go-hclog"
 	"net"
 	"strings"
 	"sync"
@@ -19,14 +21,14 @@ func init() {
 		ID: "C11", Level: "exploration", Primary: "states", EvalCount: "stops",
 		Rule: "liveness restated as bounded progress: Stop must return within B=10s (an order of magnitude above what a correct implementation needs) WITHOUT any client action, and Run must then return nil. " +
 			"One evaluation = a fresh server brought into a connection state (none; 1/8/64 idle; half a frame sent; TLS listener with no / partial ClientHello; StartTLS-upgraded idle; StartTLS answered but handshake never started; busy pipelining; clients not reading " +
-			"large responses so that handlers block in Write - alone and combined ON THE SAME CONNECTION with an Unbind, a half-close, a pending StartTLS handshake or half a frame; all of them together) x optional concurrent second Stop, then Stop is called. If B expires the harness dumps goroutines and lets the clients go: a Stop parked in " +
+			"large responses so that handlers block in Write - alone and combined ON THE SAME CONNECTION with an Unbind, a half-close, a pending StartTLS handshake or half a frame; all of them together) x optional concurrent second Stop, then Stop is called; plus Stop racing Run's start-up with no client at all (Run parked at its own log statements through the user-supplied logger, and random microsecond offsets), and a connection with a history of 150 recovered handler panics. If B expires the harness dumps goroutines and lets the clients go: a Stop parked in " +
 			"WaitGroup.Wait with a gldap connection goroutine parked in network I/O, released only when the clients close, is a violation; anything else is inconclusive. " +
 			"distinct_nontrivial = distinct (state, #connections, second-Stop) triples with at least one connection open at Stop time",
 		Assume: []string{"handlers that block in application code (not in gldap's Write) are outside the statement: the workload's handlers only ever block inside ResponseWriter.Write"},
 		Phases: func(tier string, seed int64) []Phase {
 			return []Phase{{Name: "stop-states", Run: c11Run, Timeout: 40 * time.Minute}}
 		},
-		MinObserved: []string{"stops", "stops_with_open_connections", "stops_with_handlers_blocked_in_write"},
+		MinObserved: []string{"stops", "stops_with_open_connections", "stops_with_handlers_blocked_in_write", "stops_racing_run_startup"},
 	})
 }
 
@@ -38,10 +40,100 @@ type c11State struct {
 	Second bool
 }
 
+// c11Startup: Stop racing Run's start-up (no client involved). Run is parked at one of its own log statements
+// (through the user-supplied logger) or Stop is fired after a random tiny delay; Stop must return within B and Run
+// must return too.
+func c11Startup(c *Ctx, pki *PKI, pattern string, useTLS bool, round int, r *Rand) {
+	sink := &logSink{}
+	inner := hclog.New(&hclog.LoggerOptions{Name: "sut", Level: hclog.Debug, Output: sink, JSONFormat: true})
+	gl := newGateLogger(inner, pattern)
+	srvS, err := gldap.NewServer(gldap.WithLogger(gl))
+	if err != nil {
+		c.Inconclusive(err.Error())
+		return
+	}
+	addr := fmt.Sprintf("127.0.0.1:%d", freePort())
+	var ropts []gldap.Option
+	if useTLS {
+		ropts = append(ropts, gldap.WithTLSConfig(pki.ServerOnly))
+	}
+	runRet := make(chan error, 1)
+	go func() { runRet <- srvS.Run(addr, ropts...) }()
+	sig := fmt.Sprintf("startup/%s/tls=%v", pattern, useTLS)
+	if pattern != "" {
+		select {
+		case <-gl.Reached:
+		case <-time.After(5 * time.Second):
+			// this build never logs that line on this path: nothing to gate
+			close(gl.Release)
+			srvS.Stop()
+			return
+		}
+	} else {
+		for i, n := 0, r.Intn(3000); i < n; i++ {
+			_ = i * i // a spin of up to a few microseconds
+		}
+	}
+	stopRet := make(chan error, 1)
+	go func() { stopRet <- srvS.Stop() }()
+	if pattern != "" {
+		time.Sleep(30 * time.Millisecond) // Stop runs into whatever it runs into while Run is parked
+		close(gl.Release)
+	}
+	c.Count("stops", 1)
+	c.Count("stops_racing_run_startup", 1)
+	c.Distinct("states", sig)
+	select {
+	case err := <-stopRet:
+		if err != nil {
+			c.Violate("Stop returned an error", err.Error(), map[string]any{"state": sig})
+		}
+	case <-time.After(c11Bound):
+		dump := gldapGoroutines()
+		stopParked, runParked := false, false
+		for _, g := range dump {
+			if strings.Contains(g, "(*Server).Stop") && (strings.Contains(g, "sync.(*WaitGroup).Wait") || strings.Contains(g, "sync.(*RWMutex)")) {
+				stopParked = true
+			}
+			if strings.Contains(g, "(*Server).Run(") && strings.Contains(g, "sync.(*RWMutex).Lock") {
+				runParked = true
+			}
+		}
+		det := map[string]any{"state": sig, "round": round, "stop_parked": stopParked, "run_parked_in_RWMutex_Lock": runParked, "goroutines": trimDump(dump, 4)}
+		if stopParked && runParked {
+			c.Violate("Stop deadlocks with Run's start-up", fmt.Sprintf("%s: Stop had not returned after %s with no client connected; Stop and Run wait for each other", sig, c11Bound), det)
+		} else {
+			c.Inconclusive(fmt.Sprintf("%s: Stop exceeded %s but the dump does not show the Stop/Run deadlock shape", sig, c11Bound))
+		}
+		return
+	}
+	select {
+	case err := <-runRet:
+		if err != nil && !strings.Contains(err.Error(), "address already in use") {
+			c.Violate("Run returned an error after Stop", err.Error(), map[string]any{"state": sig})
+		}
+	case <-time.After(c11Bound):
+		c.Violate("Run did not return after Stop returned", sig, map[string]any{"state": sig})
+	}
+}
+
 func c11Run(c *Ctx) {
 	pki := newPKI()
+	for rep := 0; rep < c.N(2, 20); rep++ {
+		for _, tlsOn := range []bool{false, true} {
+			for _, pat := range []string{"setting up TLS listener", "listening"} {
+				if pat == "setting up TLS listener" && !tlsOn {
+					continue // only logged when a TLS configuration is given
+				}
+				c11Startup(c, pki, pat, tlsOn, rep, c.Rng)
+			}
+		}
+	}
+	for i := 0; i < c.N(400, 20000); i++ {
+		c11Startup(c, pki, "", i%2 == 0, i, c.Rng.Sub(fmt.Sprintf("su%d", i)))
+	}
 	states := []string{"none", "idle", "half-frame", "tls-no-hello", "tls-partial-hello", "starttls-idle", "starttls-pending", "busy-pipelining", "not-reading",
-		"not-reading+unbind", "not-reading+half-close", "not-reading+starttls-pending", "not-reading+half-frame", "mixed"}
+		"not-reading+unbind", "not-reading+half-close", "not-reading+starttls-pending", "not-reading+half-frame", "after-panic-storm", "mixed"}
 	counts := []int{1, 8}
 	reps := 1
 	if !c.Quick() {
@@ -75,6 +167,9 @@ func c11One(c *Ctx, pki *PKI, st c11State) {
 			inHandlers.Add(1)
 			defer inHandlers.Add(-1)
 			s, _ := r.GetSearchMessage()
+			if s.BaseDN == "panic" {
+				panic("injected handler panic (C11)")
+			}
 			if s.BaseDN == "big" {
 				for i := 0; i < 400; i++ {
 					e := r.NewSearchResponseEntry("cn=e")
@@ -160,6 +255,22 @@ func c11One(c *Ctx, pki *PKI, st c11State) {
 			}()
 		case "not-reading":
 			cn.Write(search(1, "big"))
+		case "after-panic-storm":
+			// a history of many recovered handler panics on this connection, then an ordinary request, then idle
+			var buf []byte
+			for i := 0; i < 150; i++ {
+				buf = append(buf, search(int64(10+i), "panic")...)
+			}
+			buf = append(buf, search(500, "x")...)
+			cn.Write(buf)
+			cl := wrapClient(cn)
+			cn.SetReadDeadline(time.Now().Add(300 * time.Millisecond))
+			for {
+				if _, err := sber.ReadFrame(cl.br); err != nil {
+					break
+				}
+			}
+			cn.SetReadDeadline(time.Time{})
 		case "starttls-pending":
 			// StartTLS requested and answered, the client never starts the handshake
 			cn.Write(sber.Message(1, sber.ExtendedRequest([]byte(sber.OIDStartTLS), nil, false), nil).Encode())
@@ -281,9 +392,20 @@ wait:
 	cwg.Wait()
 	det := map[string]any{"state": sig, "bound_s": c11Bound.Seconds(), "stop_parked_in_WaitGroup_Wait": stopParked, "connection_goroutine_parked_in_io": connParked,
 		"released_after_clients_closed": released, "release_latency_ms": time.Since(tRelease).Milliseconds(), "goroutines": trimDump(dump, 3)}
+	connGoroutine := false
+	for _, g := range dump {
+		if strings.Contains(g, "(*conn).serveRequests") || strings.Contains(g, "(*conn).close") || strings.Contains(g, "(*Server).Run.func") {
+			connGoroutine = true
+		}
+	}
+	det["harness_handlers_running_at_expiry"] = inHandlers.Load()
 	if stopParked && connParked && released {
 		c.Violate("Stop blocks while a client holds a connection: "+st.Name,
 			fmt.Sprintf("state %s: Stop had not returned after %s without any client action; it returned %d ms after the clients closed their sockets", sig, c11Bound, time.Since(tRelease).Milliseconds()), det)
+	} else if stopParked && connGoroutine && inHandlers.Load() == 0 {
+		// no application handler is running, so nothing outside gldap can be what Stop is waiting for
+		c.Violate("Stop blocks although no handler is running: "+st.Name,
+			fmt.Sprintf("state %s: Stop had not returned after %s; it is parked in WaitGroup.Wait, a gldap connection goroutine is still parked and no handler is running (released after the clients closed: %v)", sig, c11Bound, released), det)
 	} else {
 		c.Inconclusive(fmt.Sprintf("state %s: Stop exceeded %s but the goroutine dump does not show the client-held shape (stopParked=%v connParked=%v released=%v)", sig, c11Bound, stopParked, connParked, released))
 	}
